@@ -3,6 +3,7 @@
    the code by the correspondence harness cmd/c08 + harness/stack); the property is the
    trace monitor Spec/C08Spec.v, which also judges the implementation's traces. *)
 From Verif Require Import Base.Prelude Model.Stack Spec.C08Spec Proofs.C08Proofs.
+From Verif Require Import Model.StackX Spec.StackXSpec.
 
 (* For every history of operations (local tree construction, connects, discovery replies
    and notifications, subscribe / unsubscribe / bind / unbind calls by any peers, local
@@ -18,6 +19,14 @@ From Verif Require Import Base.Prelude Model.Stack Spec.C08Spec Proofs.C08Proofs
 Theorem C08_trace_accepted : forall ops, accepted (judge minit (snd (run init ops))) = true.
 Proof. exact run_accepted. Qed.
 Print Assumptions C08_trace_accepted.
+
+(* The same for histories in which a teardown of peer p (disconnect, entity-removing discovery
+   notification or reply) is overlapped by a subscribe / bind / delete call of another peer q
+   (Model/StackX.v [During]: the call arrives while the removal cascade runs, waits for the registry
+   mutex and is applied afterwards; its observations are judged as the call following the teardown). *)
+Theorem C08_overlap_trace_accepted : forall xops, xaccepted (xjudge mon minit (snd (xrun init xops))) = true.
+Proof. exact xrun_accepted. Qed.
+Print Assumptions C08_overlap_trace_accepted.
 
 Theorem C08_ids_distinct : forall ops, NoDup (map e_id (subs (fst (run init ops)))).
 Proof. exact ids_distinct. Qed.
